@@ -41,7 +41,7 @@ structure Slot where
   addr : Nat       -- position of the 16-bit pointer inside the sequence
   flag : Bool      -- top bit of the pointer (kept by the linker)
   want : Want
-  start : Nat := 0 -- PCM only: start offset inside the stored sample (non-zero = known finding D11)
+  start : Nat := 0 -- PCM only: start offset of the playback window behind the header's position
   deriving DecidableEq, Repr
 
 structure SongIn where
